@@ -138,6 +138,35 @@ def one_subset(c, tmp, sw, sown, bs, nb, subset, pairs, metas, direct):
         except Exception as e:  # noqa
             c.violation("partial-reap-raised-for-earlier-handle",
                         f"a Crop object created before the sow cannot reap partially: {type(e).__name__}: {str(e)[:150]}", rep)
+    # ... and while ANOTHER batch is being grown -- written but not yet published -- a partial reap through a
+    # second handle still shows exactly the batches finished before, and a plain reap is still refused
+    rest = [j for j in range(1, B + 1) if j not in subset]
+    if o[0] == 0 and rest and not getattr(run, "_no_mid", False):
+        j = rest[0]
+        seen = {}
+
+        def look():
+            other = Crop(name=run.name, parent_dir=run.parent)
+            try:
+                seen["partial"] = ["nest", R.canon_nest(other.reap_combos(allow_incomplete=True), sown.depth())]
+            except Exception as e:  # noqa
+                seen["partial_error"] = f"{type(e).__name__}: {str(e)[:150]}"
+            try:
+                other.reap_combos()
+                seen["plain"] = "succeeded"
+            except Exception as e:  # noqa
+                seen["plain"] = type(e).__name__
+        with D.observed_result_write(look):
+            run.crop.grow(j, verbosity=0)
+        ops.append(("grow", [j])); obs.append(run.do(("query",)))     # what the grow op itself would have observed
+        if "partial_error" in seen:
+            c.violation("partial-reap-raised-while-a-batch-is-being-written", seen["partial_error"], rep)
+        elif seen.get("partial") != o[-1]:
+            c.violation("partial-reap-shows-unpublished-batch", f"while batch {j} was written but not published a "
+                        "partial reap differed from the one before", {**rep, "during": seen.get("partial"), "before": o[-1]})
+        if seen.get("plain") != "XYZError":
+            c.violation("incomplete-crop-not-refused", f"while batch {j} was being written a plain reap "
+                        f"{seen.get('plain')} instead of being refused", rep)
     # continue growing, then a full reap is exact
     for op in [("grow_missing",), ("reap", False, None)]:
         o = run.do(op); ops.append(op); obs.append(o)
